@@ -157,8 +157,8 @@ def solve_cn_model(
         (name, 0): structure
         for name, structure in cn_configs.items()
         if not fusion_support
-        or name == "1"
-        or (del_allele and name == del_allele)
+        or structure.kind
+        not in (CNConfigType.LEFT_FUSION, CNConfigType.RIGHT_FUSION)  # only fusions
         or (name in fusion_support and fusion_support[name] >= 1 / (2 * max_cn))
     }
     for a, ai in list(structures.keys()):
